@@ -34,7 +34,13 @@ func (c *validateAwarePostProcessors) Order() int {
 	return OrderValidate
 }
 
-func (c *validateAwarePostProcessors) PostProcessProperties(properties []*component_definition.Property, component any, componentName string) ([]*component_definition.Property, error) {
+func (c *validateAwarePostProcessors) PostProcessProperties(properties []*component_definition.Property, component any, componentName string) (_ []*component_definition.Property, err error) {
+	//the validator panics on constraints it can not interpret (e.g. an undefined rule): report that as an error of this component
+	defer func() {
+		if r := recover(); r != nil {
+			err = errors.Errorf("validate component '%s' panicked: %v", componentName, r)
+		}
+	}()
 	for _, prop := range properties {
 		if prop.PropertyType != component_definition.PropertyTypeConfiguration {
 			continue
